@@ -574,58 +574,47 @@ def check_internal_order(ctx, lib):
     from ..decision import Walker
     from ..leaf import KINDS, TYPE_OF, VIEW_KIND
     EQUAL = ("agg", "std::cmp::Ordering::Equal", (), ())
-    for same in (1, 0):
-        for k in KINDS:
-            def atom(t, k=k):
-                if t[0] == "discr" and t[1][0] == "call" and t[1][1] == "variable::Variable::get_type":
-                    return TYPE_OF[k]
-                if t[0] == "discr" and t[1][0] == "view" and t[1][2] in (("param", 1), ("param", 2)):
-                    return "Some" if VIEW_KIND[t[1][1]] == k else "None"
-                return None
-
-            def call(t, argvals, same=same):
-                if t[1] in ("std::cmp::PartialEq::ne", "std::cmp::PartialEq::eq") and \
-                        all(x[0] == "call" and x[1] == "variable::Variable::get_type" for a in t[2] for x in a):
-                    return (1 - same) if t[1].endswith("::ne") else same
-                return None
-
-            w = Walker(b, o, atom=atom, call=call)
+    from ..leaf import is_payload, pair_walker
+    LESS = ("agg", "std::cmp::Ordering::Less", (), ())
+    for k in KINDS:
+        for k2 in KINDS:
+            w = pair_walker(b, lib, k, k2)
             try:
                 paths = w.walk()
             except Exception as e:  # Undecided
-                ctx.bad(rule, f"cmp:{k}/{'same' if same else 'different'}", f"Ord::cmp undecidable: {e}", b.span)
+                ctx.bad(rule, f"cmp:{k}/{k2}", f"Ord::cmp undecidable: {e}", b.span)
                 continue
             outs = set()
             for path, leaf in paths:
                 for t in w.result_on_path(path):
                     if t == EQUAL:
                         outs.add("Equal")
-                    elif m(t, Call("std::cmp::Ord::cmp", Each(view("string", ("param", 1))), Each(view("string", ("param", 2))))):
+                    elif t[0] == "call" and t[1] == "std::cmp::Ord::cmp" and len(t[2]) == 2 and t[2][0] and t[2][1] and \
+                            all(is_payload(x, 1, "String") for x in t[2][0]) and all(is_payload(x, 2, "String") for x in t[2][1]):
                         outs.add("String::cmp(self, other)")
-                    elif m(t, Call("std::option::Option::<T>::unwrap_or", Each(Call("std::cmp::PartialOrd::partial_cmp", Each(view("number", ("param", 1))), Each(view("number", ("param", 2))))), Each(("agg", "std::cmp::Ordering::Less", (), ())))):
+                    elif t[0] == "call" and t[1] == "std::option::Option::<T>::unwrap_or" and len(t[2]) == 2 and set(t[2][1]) == {LESS} and t[2][0] and all(
+                            x[0] == "call" and x[1] == "std::cmp::PartialOrd::partial_cmp" and x[2][0] and x[2][1] and
+                            all(is_payload(y, 1, "Number") for y in x[2][0]) and all(is_payload(y, 2, "Number") for y in x[2][1]) for x in t[2][0]):
                         outs.add("partial_cmp(self, other) or Less")
                     else:
                         outs.add("?" + fmt_terms([t])[:70])
+            same = k == k2
             if not same:
-                want = {"Equal"}
+                want = [{"Equal"}]
             elif k == "String":
-                want = {"String::cmp(self, other)"}
+                want = [{"String::cmp(self, other)"}]
             elif k == "Number":
-                want = {"partial_cmp(self, other) or Less"}
+                want = [{"partial_cmp(self, other) or Less"}, {"partial_cmp(self, other) or Less", "Equal"}]
             else:
-                want = {"Equal"}
-            ctx.check(outs == want, rule, f"cmp:{k}/{'same-type' if same else 'different-type'}",
-                      f"Variable::cmp on {k} vs a value of {'the same' if same else 'another'} type yields {sorted(want)} and nothing else (found {sorted(outs)})", b.span)
-    calls = {t["callee"]: [o.of_operand(a) for a in t["args"]] for _, t in b.calls()}
-    sc = [a for c, a in calls.items() if c == "std::cmp::Ord::cmp"]
-    ok = len(sc) == 1 and ms(sc[0][0], view("string", ("param", 1))) and ms(sc[0][1], view("string", ("param", 2)))
-    ctx.check(ok, rule, "strings", "strings are ordered by String::cmp(self, other) (byte order = code-point order), self first", b.span)
-    pc = [a for c, a in calls.items() if c == "std::cmp::PartialOrd::partial_cmp"]
-    ok = len(pc) == 1 and ms(pc[0][0], view("number", ("param", 1))) and ms(pc[0][1], view("number", ("param", 2)))
-    ctx.check(ok, rule, "numbers", "numbers are ordered by f64::partial_cmp(self, other), self first", b.span)
-    gt = [a for c, a in calls.items() if c == "std::cmp::PartialEq::ne" or c == "std::cmp::PartialEq::eq"]
-    ok = any(ms(a[0], Call("variable::Variable::get_type", Each(("param", 1)))) and ms(a[1], Call("variable::Variable::get_type", Each(("param", 2)))) for a in gt)
-    ctx.check(ok, rule, "type-gate", "values are compared only after their types were found equal", b.span)
+                want = [{"Equal"}]
+            if same:
+                ctx.check(outs in want, rule, f"cmp:{k}/same-type",
+                          f"Variable::cmp on {k} vs {k} yields {sorted(want[0])} and nothing else (found {sorted(outs)})", b.span)
+            elif outs not in want:
+                ctx.bad(rule, f"cmp:{k}/different-type", f"Variable::cmp on {k} vs {k2} yields ['Equal'] and nothing else (found {sorted(outs)})", b.span)
+        ctx.check(True, rule, f"cmp:{k}/different-type-cases", f"{k} against the six other kinds walked")
+    # the two orderings used are the payloads' own: String::cmp and f64::partial_cmp with self first (checked per case above);
+    # the type gate is the case table itself (different kinds -> Equal)
     # PartialOrd delegates to cmp consistently: each operator is walked under the three outcomes of self.cmp(other),
     # whatever its spelling (== Ordering::X, is_lt()/is_le()/.., matches!, match)
     from ..decision import Undecided, Walker
